@@ -2,6 +2,9 @@ package main
 
 import (
 	"go/types"
+	"os"
+	"runtime"
+	"strconv"
 	"strings"
 )
 
@@ -12,10 +15,10 @@ func (env *Env) resolveType(s string) types.Type {
 	if strings.HasPrefix(s, "*") {
 		return types.NewPointer(env.resolveType(s[1:]))
 	}
-	if env.ex.fn == nil {
-		sfail("cannot resolve type %s outside a function", s)
+	pkg := env.specPkg()
+	if pkg == nil {
+		sfail("cannot resolve type %s: package types not loaded", s)
 	}
-	pkg := env.ex.fn.Pkg.Pkg
 	name := s
 	if i := strings.Index(s, "."); i > 0 {
 		var found *types.Package
@@ -44,4 +47,199 @@ func (env *Env) resolveType(s string) types.Type {
 		sfail("unknown type %s", s)
 	}
 	return tn.Type()
+}
+
+// lookupUFunc finds an uninterpreted spec function declared with `ufunc` (in this package's contract files, or
+// qualified as pkg.name) and returns its result sort.
+func (env *Env) lookupUFunc(name string) (Sort, bool) {
+	if env.cf != nil && env.cf.UFuncs != nil {
+		if s, ok := env.cf.UFuncs[name]; ok {
+			return s, true
+		}
+	}
+	if i := strings.Index(name, "."); i > 0 {
+		if cf := env.ex.db.byShortName(name[:i]); cf != nil && cf.UFuncs != nil {
+			if s, ok := cf.UFuncs[name[i+1:]]; ok {
+				return s, true
+			}
+		}
+	}
+	return "", false
+}
+
+// ufuncName gives the SMT name of a ufunc: the same whether it is referenced from its own package or qualified.
+func (env *Env) ufuncName(name string) string {
+	if i := strings.Index(name, "."); i > 0 {
+		return "spec_" + sanitize(name)
+	}
+	if env.cf != nil {
+		p := env.cf.Pkg
+		if j := strings.LastIndex(p, "/"); j >= 0 {
+			p = p[j+1:]
+		}
+		return "spec_" + sanitize(p+"."+name)
+	}
+	return "spec_" + sanitize(name)
+}
+
+// ghostSortOf guesses the sort of a ghost loop variable from its initial value.
+func ghostSortOf(init *SExpr) Sort {
+	if init == nil {
+		return SInt
+	}
+	switch init.Kind {
+	case "ident":
+		switch init.Op {
+		case "idperm":
+			return arrSort(SInt, SInt)
+		case "emptyset":
+			return arrSort(SInt, SBool)
+		case "true", "false":
+			return SBool
+		}
+	case "call":
+		if init.Op == "upd" && len(init.Args) > 0 {
+			return ghostSortOf(init.Args[0])
+		}
+	}
+	return SInt
+}
+
+// shiftTerm implements x << y and x >> y for 64-bit unsigned operands with a symbolic shift amount:
+// p = 2^y (64-case table), x >> y = x div p, x << y = (x * p) mod 2^64; shifts by 64 or more give 0.
+func (ex *Exec) shiftTerm(st *State, left bool, x, y Term, bits uint, signed bool) Term {
+	key := "pow2|" + y.S
+	if st.pow2Seen == nil {
+		st.pow2Seen = map[string]Term{}
+	}
+	p, ok := st.pow2Seen[key]
+	if !ok {
+		p = ex.ctx.Fresh("pow2", SInt)
+		var cases []Term
+		for k := uint(0); k < bits; k++ {
+			cases = append(cases, tImp(tEq(y, intLit(int64(k))), tEq(p, bigLit(pow2(k)))))
+		}
+		cases = append(cases, tGe(p, intLit(1)))
+		st.assume(tAnd(cases...))
+		st.pow2Seen[key] = p
+	}
+	big := tGe(y, intLit(int64(bits)))
+	if left {
+		prod := st.named("shlprod", tMul(x, p))
+		return tIte(big, intLit(0), wrapTerm(prod, bits, signed, false))
+	}
+	q, _ := ex.euclidPair(st, x, p)
+	return tIte(big, intLit(0), q)
+}
+
+// specPkg is the Go package whose scope bare identifiers of the contract being evaluated refer to: the package of the
+// contract file (which differs from the package of the function under verification when a callee's contract from
+// another package is applied at a call site).
+func (env *Env) specPkg() *types.Package {
+	if env.ex.fn == nil {
+		return env.ex.typesPkg
+	}
+	own := env.ex.fn.Pkg.Pkg
+	if env.cf == nil || env.cf.Pkg == own.Path() || strings.HasSuffix(env.cf.Pkg, "/_std") {
+		return own
+	}
+	if env.ex.ld != nil {
+		if p := env.ex.ld.PP[env.cf.Pkg]; p != nil && p.Types != nil {
+			return p.Types
+		}
+	}
+	seen := map[*types.Package]bool{}
+	var find func(p *types.Package) *types.Package
+	find = func(p *types.Package) *types.Package {
+		if seen[p] {
+			return nil
+		}
+		seen[p] = true
+		if p.Path() == env.cf.Pkg {
+			return p
+		}
+		for _, imp := range p.Imports() {
+			if r := find(imp); r != nil {
+				return r
+			}
+		}
+		return nil
+	}
+	if r := find(own); r != nil {
+		return r
+	}
+	return own
+}
+
+// systemBusy reports whether the 1-minute load average exceeds the number of CPUs (solver wall-clock limits are
+// then not comparable with the ones the baseline was established under).
+func systemBusy() bool {
+	data, err := os.ReadFile("/proc/loadavg")
+	if err != nil {
+		return false
+	}
+	f := strings.Fields(string(data))
+	if len(f) == 0 {
+		return false
+	}
+	l, err := strconv.ParseFloat(f[0], 64)
+	if err != nil {
+		return false
+	}
+	return l > float64(runtime.NumCPU())*0.9
+}
+
+// evalWitness evaluates a witness expression at a return. On a path where the expression cannot be bound (it names the
+// witness of a call that this path did not make) any value will do: a fresh constant is used.
+func (ex *Exec) evalWitness(env *Env, w Witness) (v Value) {
+	defer func() {
+		if r := recover(); r != nil {
+			if se, ok := r.(specErr); ok && strings.HasPrefix(se.msg, "unknown identifier") {
+				v = Sc{ex.ctx.Fresh("wit_"+w.Name, kindSort(w.Kind))}
+				return
+			}
+			panic(r)
+		}
+	}()
+	return env.eval(w.Expr).V
+}
+
+// mentions reports whether a spec expression refers to one of the given identifiers.
+func mentions(e *SExpr, names map[string]bool) bool {
+	if e == nil {
+		return false
+	}
+	if e.Kind == "ident" && names[e.Op] {
+		return true
+	}
+	for _, a := range e.Args {
+		if mentions(a, names) {
+			return true
+		}
+	}
+	for _, v := range e.Vars {
+		if mentions(v.Lo, names) || mentions(v.Hi, names) {
+			return true
+		}
+	}
+	return false
+}
+
+func lemClauses(cs []Clause) []*SExpr {
+	out := make([]*SExpr, len(cs))
+	for i, c := range cs {
+		out[i] = c.Expr
+	}
+	return out
+}
+
+func conjExpr(es []*SExpr) *SExpr {
+	if len(es) == 0 {
+		return &SExpr{Kind: "ident", Op: "true"}
+	}
+	e := es[0]
+	for _, x := range es[1:] {
+		e = &SExpr{Kind: "binop", Op: "&&", Args: []*SExpr{e, x}}
+	}
+	return e
 }
